@@ -10,7 +10,7 @@ def applyFields (S : Schema) (dflt : Bool) (data d want : List DNode) : String :
   | .error e => "E:" ++ e.name ++ " -"
   | .ok r =>
     (if hasDupInst S (heightL r + 1) r then "DupInstances" else dumpTok (stripNpL S r)) ++ " " ++
-      (if obsEq S dflt r want then "same" else "differs")
+      obsVerdict S dflt r want
 
 def handle (op : String) (args : List String) : String :=
   match op, args with
